@@ -88,13 +88,13 @@ Step ==
   /\ l <= NRec /\ l' = l + 1 /\ UNCHANGED done
   /\ LET e == Rec[l] IN
      CASE e.op = "parse" ->
-            /\ bad' = IF ParseOk(e.s, e.run) THEN bad ELSE Append(bad, BadEntry(l, {"C17"}, "parse run"))
+            /\ bad' = IF ParseOk(e.s, e.run) THEN bad ELSE AddBad(bad, BadEntry(l, {"C17"}, "parse run"))
             /\ drift' = IF SameAsSpec(e.s, e.run) THEN drift ELSE drift + 1
        [] e.op = "roundtrip" ->
-            /\ bad' = IF JudgeRoundTrip(e) = {} THEN bad ELSE Append(bad, BadEntry(l, JudgeRoundTrip(e), "round trip"))
+            /\ bad' = IF JudgeRoundTrip(e) = {} THEN bad ELSE AddBad(bad, BadEntry(l, JudgeRoundTrip(e), "round trip"))
             /\ drift' = IF e.panicked \/ e.text = WriteDoc(NormDoc(e.d), e.nl) THEN drift ELSE drift + 1
        [] e.op = "fault" ->
-            /\ bad' = IF JudgeFault(e) = {} THEN bad ELSE Append(bad, BadEntry(l, JudgeFault(e), "sink fault"))
+            /\ bad' = IF JudgeFault(e) = {} THEN bad ELSE AddBad(bad, BadEntry(l, JudgeFault(e), "sink fault"))
             /\ drift' = IF e.full = WriteDoc(NormDoc(e.d), e.nl) THEN drift ELSE drift + 1
 
 Finish == l = NRec + 1 /\ ~done /\ done' = TRUE /\ UNCHANGED << l, bad, drift >>
